@@ -359,7 +359,7 @@ struct Outcome
    Viol viol[8];
    uint64_t digest = 0;
    int sanStage = -1;
-   int nonfinite = 0, lowerGtUpper = 0, failNonEmpty = 0, spxExc = 0;
+   int nonfinite = 0, lowerGtUpper = 0, lhsGtRhs = 0, failNonEmpty = 0, spxExc = 0;
 };
 static void add_viol(Outcome& o, int stage, const char* sig, const char* fmt, ...)
 {
@@ -550,13 +550,18 @@ static void run_core(const Case& c, const Feat& ft, const char* path, const char
                else if(!mirror_ok(ql, why, sizeof why)) add_viol(o, ST_INV, "lp-inconsistent:rational-row-column-mirror", "%s", why);
             }
             if(c.names && (rn->num() != o.nrows || cn->num() != o.ncols))
-               add_viol(o, ST_INV, "lp-inconsistent:name-sets", "%d rows but %d row names, %d columns but %d column names", o.nrows, rn->num(), o.ncols, cn->num());
+            {
+               const char* kind = cn->num() != o.ncols ? "column-names-differ-from-columns" : (rn->num() > o.nrows ? "more-row-names-than-rows" : "fewer-row-names-than-rows");
+               char sig[120];
+               snprintf(sig, sizeof sig, "lp-inconsistent:name-sets:%s", kind);
+               add_viol(o, ST_INV, sig, "%d rows but %d row names, %d columns but %d column names", o.nrows, rn->num(), o.ncols, cn->num());
+            }
             for(int i = 0; i < lp.nRows(); ++i)
             {
                double a = lp.lhs(i), b = lp.rhs(i);
                h = hd(hd(h, a), b);
                if(a != a || b != b) o.nonfinite++;
-               else if(a > b) add_viol(o, ST_INV, "lp-inconsistent:row-lhs-above-rhs", "row %d: lhs %g > rhs %g", i, a, b);
+               else if(a > b) o.lhsGtRhs++;   // only ever seen with literals beyond SoPlex's infinity (1e100): what the file states
                const SVectorBase<double>& r = lp.rowVector(i);
                for(int k = 0; k < r.size(); ++k) { h = hd(hi(h, r.index(k)), r.value(k)); if(!std::isfinite(r.value(k))) o.nonfinite++; }
             }
@@ -720,6 +725,7 @@ static uint64_t run_case(const Case& c, Ctx& ctx, const std::string& outdir)
          else ctx.count("read_success_empty_lp");
          if(A.nonfinite) ctx.count("read_success_with_nonfinite_or_nan_values");
          if(A.lowerGtUpper) ctx.count("read_success_with_lower_above_upper");
+         if(A.lhsGtRhs) ctx.count("read_success_with_row_lhs_above_rhs");
       }
       if(A.failNonEmpty) ctx.count("read_failure_left_nonempty_lp");
       if(c.fmt == BAS && A.readRes == 1) ctx.count("basis_read_ok.basics=" + std::to_string(A.basics));
@@ -895,6 +901,8 @@ int main(int argc, char** argv)
 {
    Args args = parse_args(argc, argv);
    args.prop = "C13";
+   mallopt(M_TRIM_THRESHOLD, 1 << 29);   // plain builds: keep the heap mapped between cases (no effect under the sanitizer allocator)
+   mallopt(M_MMAP_THRESHOLD, 1 << 30);
    init_texts();
    init_alphabets();
    static std::ostream* keep = &g_null;
@@ -952,7 +960,7 @@ int main(int argc, char** argv)
    auto kmps = atoi(args.get("kmps", thorough ? "3" : "2").c_str());
    auto kbas = atoi(args.get("kbas", thorough ? "3" : "2").c_str());
    auto kset = atoi(args.get("kset", thorough ? "4" : "3").c_str());
-   const double TOKCPU = 3.0;
+   const double TOKCPU = 1.0;
 
    // ---- (a) token sequences ---------------------------------------------------------------------------
    {
